@@ -369,7 +369,8 @@ class SgzConverter(SgzReader):
                         outfile.write(new_block)
             self.read_variant_headers()
             for k, header_array in self.variant_headers.items():
-                outfile.write(header_array.tobytes())
+                outfile.write(header_array.tobytes() +
+                              bytes(self.padded_header_entry_length_bytes - self.header_entry_length_bytes))
 
 
 class NumpyConverter(object):
